@@ -84,6 +84,13 @@ Clauses(o, ev, o2) ==
             \o (IF s2.recvd <= r.body THEN <<>> ELSE <<F("body-beyond", a)>>)
             \o (IF s.ended = 0 THEN <<>> ELSE <<F("after-end", a)>>)
             \o (IF ev.more \/ (r.done /\ s2.recvd = r.total) THEN <<>> ELSE <<F("end-iff-complete", a)>>)
+      [] ev.e = "app_recv" /\ ev.type = "http.disconnect" ->
+            \* the request was complete and nothing had gone wrong, yet the instance is told about the
+            \* disconnect without ever having seen the end of the body
+            LET a == ev.app r == Req(o, a) s == App(o, a) IN
+            IF /\ r.known /\ r.kind = "http" /\ r.done /\ s.ended = 0 /\ ~r.rst
+               /\ ~o.gone /\ ~o.reset /\ ~o.tfail /\ ~o.cerr /\ ~o.shut /\ ~o.winddown
+            THEN <<F("body-incomplete", "disconnect-before-end")>> ELSE <<>>
       [] ev.e = "quiescent" ->
             LET Incomplete(a) ==
                     LET r == Req(o, a) s == App(o, a) IN
@@ -93,7 +100,11 @@ Clauses(o, ev, o2) ==
                 Missing(a) ==
                     LET r == Req(o, a) IN
                     /\ r.known /\ r.kind = "http" /\ ~r.bad /\ r.head /\ ~r.rst
-                    /\ (r.idx = 1 \/ r.ver = "2")
+                    /\ (r.idx = 1 \/ r.ver = "2"
+                        \* a pipelined HTTP/1 request: the exchange before it finished and left the
+                        \* connection reusable, and this request is completely buffered
+                        \/ (r.idx - 1 <= Len(o.order) /\ r.done
+                            /\ Reusable(o, o.order[r.idx - 1]) /\ App(o, o.order[r.idx - 1]).ended > 0))
                     /\ Connected(o) /\ ~o.cerr /\ ~o.shut
                     /\ App(o, a).started = 0
             IN (IF \E a \in DOMAIN o.apps : Incomplete(a) THEN <<F("body-incomplete", "")>> ELSE <<>>)
